@@ -1394,6 +1394,8 @@ pub struct Faulty {
     pub flush_fails: bool,
     /// lengths requested by each call (to classify what a fault hit)
     pub requested: Vec<usize>,
+    /// (oracle-only runs) call `i` fails with this error kind
+    pub kind_at: Option<(usize, std::io::ErrorKind)>,
 }
 
 impl Write for Faulty {
@@ -1401,6 +1403,11 @@ impl Write for Faulty {
         let i = self.calls;
         self.calls += 1;
         self.requested.push(buf.len());
+        if let Some((at, kind)) = self.kind_at {
+            if at == i {
+                return Err(std::io::Error::new(kind, "injected"));
+            }
+        }
         match self.script.get(&i) {
             Some(Fault::Acc(k)) => {
                 let n = (*k).min(buf.len());
@@ -1453,7 +1460,7 @@ impl SinkRun {
 }
 
 fn faulty(script: &[(usize, Fault)], flush_fails: bool) -> Faulty {
-    Faulty { out: vec![], calls: 0, script: script.iter().cloned().collect(), flush_fails, requested: vec![] }
+    Faulty { out: vec![], calls: 0, script: script.iter().cloned().collect(), flush_fails, requested: vec![], kind_at: None }
 }
 
 /// the real FsmWriter (write + close) over a scripted sink
@@ -1759,6 +1766,36 @@ pub fn check_c18_fsm(c: &FsmCase, thorough: bool, p: &mut Prng, model: &mut Mode
         j["script"] = script_json(&script);
         j["flush_fails"] = json!(flush);
         sink_oracle(&run, &img, &script, flush, rep, j);
+    }
+    // every KIND of error counts: a string payload is handed to the sink with one plain `write`, which
+    // nothing repeats — whatever error that call returns, the writer must end in its error state
+    // (oracle only: the Lean sink model has one kind of failure)
+    let payload_calls: Vec<usize> = probe.requested.iter().enumerate().filter(|(_, l)| **l > 1).map(|(i, _)| i).collect();
+    for (n, i) in payload_calls.iter().enumerate() {
+        if n >= (if thorough { 200 } else { 12 }) {
+            break;
+        }
+        for kind in [std::io::ErrorKind::Interrupted, std::io::ErrorKind::WouldBlock, std::io::ErrorKind::TimedOut, std::io::ErrorKind::BrokenPipe] {
+            rep.evaluations += 1;
+            rep.count("sink_error_kind_cases");
+            let mut f = faulty(&[], false);
+            f.kind_at = Some((*i, kind));
+            let mut w: FsmWriter<Faulty> = FsmWriter::new(Box::new(DefaultProtocolWriter::new(f)));
+            let r = catch_unwind(AssertUnwindSafe(|| {
+                w.write(&fsm);
+                w.close();
+            }));
+            if r.is_err() {
+                continue;
+            }
+            if !w.writer.has_error() {
+                let mut j = case_json(c, origin);
+                j["case"] = json!("sink-error-kind");
+                j["call"] = json!(i);
+                j["error_kind"] = json!(format!("{:?}", kind));
+                ofail(rep, &format!("C18:write:error-not-visible:{:?}", kind), j);
+            }
+        }
     }
     rep.sample(json!({"xml": short(&c.xml), "image_bytes": img.len(), "sink_calls": calls}));
 }
